@@ -3,19 +3,14 @@
    (for one (actor, version)): DELETE .. RETURNING of every row overlapping or
    adjacent to the incoming seq range, union, the `len = 1` failsafe, INSERT. *)
 From Coq Require Import List ZArith Bool.
-From Corro Require Import Lib.Ivl.
+From Corro Require Import Lib.Ivl Gen.SeqSql.
 Import ListNotations.
 Open Scope Z_scope.
 
-(* the WHERE clause of the DELETE, as written in the source (row = start_seq,
-   end_seq; parameters :start, :end).  `AND end_seq` is SQL truthiness. *)
-Definition seq_del_pred (rs re s e : Z) : bool :=
-  ((s <=? rs) && (rs <=? e)) ||
-  ((rs <=? s) && (e <=? re)) ||
-  ((rs <=? e) && (e <=? re)) ||
-  ((s <=? re) && (re <=? e)) ||
-  ((rs =? e + 1) && negb (re =? 0)) ||
-  (re =? s - 1).
+(* the WHERE clause of the DELETE: GENERATED from the SQL text in the source by
+   tools/sql2coq.py (Gen/SeqSql.v; row = start_seq, end_seq; parameters :start, :end;
+   a bare `end_seq` is SQL truthiness) *)
+Definition seq_del_pred (rs re s e : Z) : bool := seq_del_pred_src rs re s e.
 
 (* rows of one (site_id, db_version): (start_seq, end_seq, last_seq), kept
    sorted by start_seq (PRIMARY KEY (site_id, db_version, start_seq)) *)
